@@ -84,6 +84,19 @@ func (s *Scope) Synchronized() bool {
 	return ok
 }
 
+// Share prepares the scope for use by more than one thread by setting the
+// synchronized mode of the scope and of all its ancestors. It must be called
+// before the scope is handed to another thread. Scopes that are already
+// synchronized keep their mutex.
+func (s *Scope) Share() {
+	if !s.Synchronized() {
+		s.SetSynchronized(true)
+	}
+	for _, p := range s.parents {
+		p.Share()
+	}
+}
+
 // Lock the scope to synchronize changes.
 func (s *Scope) Lock() {
 	s.locker.Lock()
